@@ -15,6 +15,7 @@ func runC18(c *Checker) {
 	c.trust("go/ssa + go/types (x/tools v0.29.0)", "E1 transfer functions", "io.ReadFull contract: returns 188,nil or fewer bytes with io.EOF (none) / io.ErrUnexpectedEOF (some) / the reader's error")
 	c.checkWriterWrite()
 	c.checkReadFrom()
+	c.checkReadFromStep()
 	c.checkAdapters()
 }
 
@@ -388,4 +389,132 @@ func containsVal(s *Summary, v, target Val, depth int) bool {
 		}
 	}
 	return false
+}
+
+// checkReadFromStep: one abstract iteration of ReadFrom's loop from a symbolic
+// state, then the result is specialised under assumptions about the read and
+// the delivery (conditional constant propagation on the summary) and compared
+// with what the statement requires in each case.
+func (c *Checker) checkReadFromStep() {
+	const anchor = "packet:(*packetWriter).ReadFrom"
+	fn, err := c.P.Func(anchor)
+	if err != nil {
+		return
+	}
+	ls, err := AnalyzeLoop(c.P, fn, nil)
+	if err != nil {
+		c.undecided("C18.readstep", anchor, "loop step", err.Error())
+		return
+	}
+	in := ls.Sum.in
+	var read, deliver *Event
+	for i := range ls.Sum.Events {
+		e := &ls.Sum.Events[i]
+		if e.Kind != "call" {
+			continue
+		}
+		switch {
+		case e.Note == "io.ReadFull" || e.Note == "io.ReadAtLeast" || strings.HasSuffix(e.Note, ".Read"):
+			read = e
+		case strings.Contains(e.Note, "WritePacket"):
+			deliver = e
+		}
+	}
+	if read == nil || deliver == nil {
+		c.undecided("C18.readstep", anchor, "loop step", "read or delivery call not found in the loop body")
+		return
+	}
+	rres, ok1 := read.Val.(*StructV)
+	dres, ok2 := deliver.Val.(*StructV)
+	if !ok1 || !ok2 || len(rres.Fields) != 2 || len(dres.Fields) != 2 {
+		c.undecided("C18.readstep", anchor, "loop step", "unexpected call result shapes")
+		return
+	}
+	nr, _ := rres.Fields[0].(*BV)
+	er := rres.Fields[1]
+	nw, _ := dres.Fields[0].(*BV)
+	ew := dres.Fields[1]
+	var errPhi, nPhi *ssa.Phi
+	for _, p := range ls.Phis {
+		if _, _, isInt := intWidth(p.Type()); isInt {
+			nPhi = p
+		} else {
+			errPhi = p
+		}
+	}
+	if nr == nil || nw == nil || nPhi == nil {
+		c.undecided("C18.readstep", anchor, "loop step", "loop state has no byte counter")
+		return
+	}
+	// the pending error: a loop variable, or constantly nil when the loop
+	// never carries an error into the next iteration
+	var errSoFar Val = NilV{}
+	if errPhi != nil {
+		errSoFar = ls.Pre[errPhi]
+	}
+	k188 := constInt(188, nr.W, nr.Signed)
+	full := bvEq(nr, k188)
+	some := bvLt(constInt(0, nr.W, nr.Signed), nr)
+	erNil := in.nilBit(er)
+	erEOF := in.eqBit(er, SymConst{Name: "io.EOF"})
+	erUEOF := in.eqBit(er, SymConst{Name: "io.ErrUnexpectedEOF"})
+	ewNil := in.nilBit(ew)
+	sameCount := band(bvEq(nr, nw), bvEq(k188, nw))
+	retErr := ls.Sum.RetN(1)
+	type cse struct {
+		name   string
+		facts  []Bit // assumed true
+		exits  bool
+		expect func(v Val) (bool, string)
+	}
+	is := func(want Val, what string) func(v Val) (bool, string) {
+		return func(v Val) (bool, string) {
+			return sameVal(v, want), "returned error is " + showVal(v) + ", expected " + what
+		}
+	}
+	isSym := func(name string) func(v Val) (bool, string) {
+		return func(v Val) (bool, string) { return showVal(v) == name, "returned error is " + showVal(v) + ", expected " + name }
+	}
+	cases := []cse{
+		{"reader fails (not end of stream) inside a packet", []Bit{bnot(erNil), bnot(erEOF), bnot(erUEOF), bnot(full), some}, true, is(er, "the reader's error")},
+		{"reader fails (not end of stream) with no data", []Bit{bnot(erNil), bnot(erEOF), bnot(erUEOF), bnot(full), bnot(some)}, true, is(er, "the reader's error")},
+		{"reader fails right after a delivered packet", []Bit{bnot(erNil), bnot(erEOF), bnot(erUEOF), full, ewNil, sameCount}, true, is(er, "the reader's error")},
+		{"stream ends inside a packet", []Bit{bnot(erNil), erUEOF, bnot(erEOF), bnot(full), some}, true, isSym("gots.ErrInvalidPacketLength")},
+		{"stream ends on a packet boundary", []Bit{bnot(erNil), erEOF, bnot(erUEOF), bnot(full), bnot(some)}, true, is(errSoFar, "the error so far (nil)")},
+		{"delivery fails", []Bit{full, bnot(ewNil)}, true, is(ew, "the packet writer's error")},
+	}
+	for _, cs := range cases {
+		fs := newFactSet(nil)
+		for _, f := range cs.facts {
+			fs.assume(f)
+		}
+		cont := fs.bit(ls.Cond)
+		okExit := isConst(cont) && !cont.c
+		got := fs.val(retErr)
+		ok, d := cs.expect(got)
+		c.check("C18.readstep", anchor, cs.name+": the loop is left", okExit, "continues under "+cont.String())
+		c.check("C18.readstep", anchor, cs.name+": result error", ok, d)
+	}
+	// normal iteration: continues, count grows by the delivered count, error unchanged
+	{
+		fs := newFactSet(nil)
+		for _, f := range []Bit{erNil, full, ewNil, sameCount, bvLt(constInt(0, nw.W, nw.Signed), nw)} {
+			fs.assume(f)
+		}
+		cont := fs.bit(ls.Cond)
+		c.check("C18.readstep", anchor, "packet read and delivered: the loop continues", isConst(cont) && cont.c, "continues under "+cont.String())
+		nn, _ := fs.val(ls.Next[nPhi]).(*BV)
+		want := bvAdd(ls.Pre[nPhi].(*BV), extendBV(nw, 64, true), false)
+		c.check("C18.readstep", anchor, "packet read and delivered: byte count grows by the delivered count", nn != nil && sameBV(nn, want), "next count "+showVal(fs.val(ls.Next[nPhi])))
+		if errPhi != nil {
+			c.check("C18.readstep", anchor, "packet read and delivered: pending error unchanged", sameVal(fs.val(ls.Next[errPhi]), ls.Pre[errPhi]), showVal(fs.val(ls.Next[errPhi])))
+		}
+	}
+	// the delivery happens only on a full packet
+	{
+		fs := newFactSet(nil)
+		fs.assume(bnot(full))
+		dc := fs.bit(deliver.Cond)
+		c.check("C18.readstep", anchor, "no delivery unless exactly 188 bytes were read", isConst(dc) && !dc.c, "delivers under "+dc.String())
+	}
 }
